@@ -596,6 +596,7 @@ type Options struct {
 	PrintSep          string
 	Sync              bool
 	History           *History
+	historyMax        int
 	Header            []string
 	HeaderLines       int
 	HeaderFirst       bool
@@ -2175,11 +2176,11 @@ func optString(arg string, prefix string) (bool, string) {
 
 func parseOptions(index *int, opts *Options, allArgs []string) error {
 	var err error
-	var historyMax int
-	if opts.History == nil {
+	// The size limit has to survive across the layers of options
+	// ($FZF_DEFAULT_OPTS_FILE, $FZF_DEFAULT_OPTS, and the arguments)
+	historyMax := opts.historyMax
+	if historyMax == 0 {
 		historyMax = defaultHistoryMax
-	} else {
-		historyMax = opts.History.maxSize
 	}
 	setHistory := func(path string) error {
 		h, e := NewHistory(path, historyMax)
@@ -2191,6 +2192,7 @@ func parseOptions(index *int, opts *Options, allArgs []string) error {
 	}
 	setHistoryMax := func(max int) error {
 		historyMax = max
+		opts.historyMax = max
 		if historyMax < 1 {
 			return errors.New("history max must be a positive integer")
 		}
